@@ -80,16 +80,18 @@ theorem chain_sound (g : Gap) (evs : List Ev) (hp : ∀ e, e ∈ evs → e.piece
 open YaraModel.ReChain in
 /-- `chain_exact_partial` (two pieces; the general statement is for k pieces with `updLen` propagating through the middle
     pieces): every head match that has a tail match at a legal distance IS confirmed, provided
-      H1  the tail's matches arrive in the order of their start offsets,
+      H1  a tail match starts at most `window` = YR_RE_SCAN_LIMIT + YR_MAX_ATOM_LENGTH = 1028 bytes before the tail
+          matches that arrived earlier,
       H2  a head offset is verified with one length only,
       H3  a head arrives before the tails it connects to.
-    H3 holds for the real candidate stream (candidates arrive by atom position).  H1 is what finding F13 violates
-    (candidates arrive in atom-END order: alternatives / variable prefixes start out of order and the pruning
-    `ending_offset + chain_gap_max < lowest_offset` has already dropped the head); H2 is what finding
-    C02-chain-single-length violates (forward verification keeps one length per offset). -/
+    H1 and H3 hold for the real candidate stream: candidates arrive in the order of their atoms' END, an atom is at
+    most YR_MAX_ATOM_LENGTH long and the backward matcher runs over at most YR_RE_SCAN_LIMIT bytes, so a later
+    candidate starts at most 1028 bytes before an earlier one.  (Before fix 81c4ffe the pruning had no window and H1
+    had to be "tails arrive in start order", which alternatives / variable prefixes break: finding F13.)  H2 is what
+    finding C02-chain-single-length violates (forward verification keeps one length per offset). -/
 theorem chain_exact_partial (g : Gap) (evs : List Ev) (hp : ∀ e, e ∈ evs → e.piece ≤ 1)
     (hH2 : ∀ a b, a ∈ evs → b ∈ evs → a.piece = 0 → b.piece = 0 → a.off = b.off → a.len = b.len)
-    (hH1 : evs.Pairwise (fun a b => a.piece = 1 → b.piece = 1 → a.off ≤ b.off))
+    (hH1 : evs.Pairwise (fun a b => a.piece = 1 → b.piece = 1 → a.off ≤ b.off + window))
     (hH3 : evs.Pairwise (fun a b => a.piece = 1 → b.piece = 0 → gapOk g (um b) a.off = false))
     (h t : Ev) (hh : h ∈ evs) (ht : t ∈ evs) (hh0 : h.piece = 0) (ht1 : t.piece = 1) (hg : gapOk g (um h) t.off = true) :
     ∃ l, (h.off, l) ∈ (run [g] evs).confirmed :=
@@ -100,10 +102,15 @@ open YaraModel.ReChain in
 example : (run [{ gmin := 0, gmax := 300 }] [⟨0, 0, 4⟩, ⟨1, 304, 9⟩]).confirmed = [(0, 313)] := by decide
 
 open YaraModel.ReChain in
-/-- F13 in the model: the same head and tail, but another alternative of the tail piece (atom `AA BB CC DD` at 305)
-    is verified first — out of start order (H1 fails): the pruning drops the head, nothing is confirmed.  This is the
-    behaviour of the real scanner on `{ 01 02 03 04 [0-300] ( AA BB CC DD | 11 ?? ?? ?? ?? 66 77 88 99 ) }`. -/
-example : (run [{ gmin := 0, gmax := 300 }] [⟨0, 0, 4⟩, ⟨1, 305, 4⟩, ⟨1, 304, 9⟩]).confirmed = [] := by decide
+/-- the former F13 in the model: the same head and tail, but another alternative of the tail piece (atom `AA BB CC DD` at
+    305) is verified first — out of start order, inside the window: the head survives the pruning and is confirmed by the
+    second candidate.  This is the behaviour of the fixed scanner on
+    `{ 01 02 03 04 [0-300] ( AA BB CC DD | 11 ?? ?? ?? ?? 66 77 88 99 ) }`. -/
+example : (run [{ gmin := 0, gmax := 300 }] [⟨0, 0, 4⟩, ⟨1, 305, 4⟩, ⟨1, 304, 9⟩]).confirmed = [(0, 313)] := by decide
+
+open YaraModel.ReChain in
+/-- H1 is needed: a tail candidate more than `window` bytes out of order (impossible in the real stream) loses the head -/
+example : (run [{ gmin := 0, gmax := 300 }] [⟨0, 0, 4⟩, ⟨1, 1400, 4⟩, ⟨1, 304, 9⟩]).confirmed = [] := by decide
 
 open YaraModel.ReChain in
 /-- C02-chain-single-length in the model: the head `01 [0-1] 02` matches at 0 with lengths 2 and 3 (H2 fails), only the
@@ -119,7 +126,7 @@ theorem chain_matches_spec_partial (fl : Flags) (hd : fl.dotall = true) (hw : fl
     (hheads : ∀ o L, (∃ h, h ∈ evs ∧ h.piece = 0 ∧ h.off = o ∧ h.len = L) ↔ Re.Matches fl buf pre o (o + L))
     (htails : ∀ o L, (∃ t, t ∈ evs ∧ t.piece = 1 ∧ t.off = o ∧ t.len = L) ↔ (Re.Matches fl buf post o (o + L) ∧ o ≤ buf.size))
     (hH2 : ∀ a b, a ∈ evs → b ∈ evs → a.piece = 0 → b.piece = 0 → a.off = b.off → a.len = b.len)
-    (hH1 : evs.Pairwise (fun a b => a.piece = 1 → b.piece = 1 → a.off ≤ b.off))
+    (hH1 : evs.Pairwise (fun a b => a.piece = 1 → b.piece = 1 → a.off ≤ b.off + window))
     (hH3 : evs.Pairwise (fun a b => a.piece = 1 → b.piece = 0 → gapOk { gmin := n, gmax := m } (um b) a.off = false))
     (o : Nat) :
     (∃ l, (o, l) ∈ (run [{ gmin := n, gmax := m }] evs).confirmed) ↔
